@@ -480,7 +480,8 @@ def _check_seg(ctx, cfg, reqs, pending):
     st, seg = _fetch(hd.seg.Segmentation, [src], handed, cfg['type'], [seg_description(s) for s in range(1, n + 1)],
                      hd.UID(), 1, hd.UID(), 1, 'verif', 'model', '1', 'dev', tile_pixel_array=True,
                      omit_empty_frames=cfg['omit_empty'], **kw)
-    expect_refusal = cfg['org'] == 'TILED_FULL' and cfg['omit_empty']
+    # TILED_FULL with omit_empty_frames is refused -- unless the whole mask is empty (omit_empty_frames is then switched off first)
+    expect_refusal = cfg['org'] == 'TILED_FULL' and cfg['omit_empty'] and any(e.any() for e in E.values())
     full = cfg['org'] == 'TILED_FULL'
     base_hist = dict(kind='seg', seg_type=cfg['type'], organisation=str(cfg['org']), omit_empty=cfg['omit_empty'],
                      tile=f'{th}x{tw}', divides=(R % th == 0, C % tw == 0), style=cfg['style'])
@@ -497,7 +498,7 @@ def _check_seg(ctx, cfg, reqs, pending):
             pending.append(('refusal', {'seg': cfg}, ('err', seg), 'L0', 'TILED_FULL with omit_empty_frames'))
         return
     if expect_refusal:
-        ctx.note(f'TILED_FULL with omit_empty_frames accepted for {cfg}')
+        ctx.note(f'TILED_FULL with omit_empty_frames and a non-empty mask was accepted for {cfg} (not a property failure; the model comparison reports it)')
     bio0 = io.BytesIO()
     seg.save_as(bio0)
     if cfg['roundtrip']:
@@ -753,14 +754,32 @@ def _exhaustive_configs(ctx):
         return [dict(R=4, C=5, th=2, tw=3), dict(R=5, C=3, th=3, tw=1)]
     # every (matrix size <= 7, tile size <= 6) pair on each axis; tile sizes above the matrix size add nothing new on that axis
     rows = [(R, th) for R in range(1, 8) for th in range(1, 7) if th <= R + 1]
-    r = ctx.rng('exh', 0)
-    cols = rows[:]
-    r.shuffle(cols)
-    return [dict(R=a[0], th=a[1], C=b[0], tw=b[1]) for a, b in zip(rows, cols)]
+    out = []
+    for rep in range(3):        # three independent pairings of the row axis list with the column axis list
+        r = ctx.rng('exh', rep)
+        cols = rows[:]
+        r.shuffle(cols)
+        out += [dict(R=a[0], th=a[1], C=b[0], tw=b[1]) for a, b in zip(rows, cols)]
+    return out
+
+
+def _corpus(ctx, reqs, pending):
+    """minimised past failures (corpus/C04/*.json) run first on every run"""
+    import glob
+    import json
+    import os
+    root = os.path.join(os.path.dirname(os.path.dirname(os.path.dirname(os.path.abspath(__file__)))), 'corpus', 'C04')
+    for f in sorted(glob.glob(os.path.join(root, '*.json'))):
+        c = json.load(open(f))['case']
+        if 'slide' in c:
+            _check_slide(ctx, c['slide'], [tuple(q) for q in c['requests']], reqs, pending)
+        elif 'seg' in c:
+            _check_seg(ctx, c['seg'], reqs, pending)
 
 
 def run(ctx):
     reqs, pending = [], []
+    _corpus(ctx, reqs, pending)
     _helper_rowcol(ctx, reqs, pending)
     _settle(ctx, reqs, pending)
     if ctx.l2_disagreements:
@@ -783,7 +802,7 @@ def run(ctx):
             _settle(ctx, reqs, pending)
             reqs, pending = [], []
     # random slide images
-    for idx in range(ctx.n(60, 400)):
+    for idx in range(ctx.n(100, 1500)):
         cfg = _slide_config(ctx, idx)
         r = ctx.rng('slidereq', idx)
         # every read decodes each touched frame through pydicom (~1 ms per frame): fewer requests for images with many frames
@@ -793,10 +812,10 @@ def run(ctx):
         if len(reqs) > 200:
             _settle(ctx, reqs, pending)
             reqs, pending = [], []
-    for idx in range(ctx.n(8, 60)):
+    for idx in range(ctx.n(8, 100)):
         _check_duplicates(ctx, idx, reqs, pending)
     # tiled segmentations
-    for idx in range(ctx.n(100, 700)):
+    for idx in range(ctx.n(150, 3000)):
         cfg = _seg_config(ctx, idx)
         _check_seg(ctx, cfg, reqs, pending)
         if len(reqs) > 200:
